@@ -1057,8 +1057,7 @@ theorem C14_response_validation (status : Nat) (cl cr : List Char) (flength offs
 theorem C14_accepted_body_clipped (status : Nat) (cl cr : List Char) (flength offset length : Int)
     (lim : Option Int) (h : grDecide true status cl cr flength offset length = .accept lim)
     (body : Src) :
-    srcAll (match lim with | some n => limitSrc body n.toNat | none => body)
-      = (srcAll body).take length.toNat := by
+    srcAll (grSrc lim body) = (srcAll body).take length.toNat := by
   have hl := (C14_response_validation status cl cr flength offset length lim h).1
   subst hl
   exact limitSrc_all body _
@@ -1067,7 +1066,7 @@ theorem C14_accepted_body_clipped (status : Nat) (cl cr : List Char) (flength of
 theorem C14_rejected_stores_nothing {σ : Type} (add : σ → Nat → Bytes → σ × AddRes)
     (status : Nat) (cl cr : List Char) (body : Src) (fc : FileChunk) (why : Reject) (st : σ) (w : W)
     (h : grDecide true status cl cr fc.filelength fc.offset fc.length = .reject why) :
-    grOne add true st w fc (.http status cl cr body) = (st, w, 0, some why.name, [], false) := by
+    grOne add true st w fc (.http status cl cr body) = ⟨st, w, 0, some why.name, [], false⟩ := by
   simp [grOne, h]
 
 /-- The pinned `Get` (`fixed = false`) limits the body only when the *claimed* length exceeds the
@@ -1076,6 +1075,140 @@ theorem C14_response_validation_unfixed_refuted :
     grDecide false 206 [] "bytes 0-9/100".toList 100 0 16384 = .accept none := by
   decide
 
+
+/-! ### the whole fetch: tor.webseedGR is a sequence of ReadFrom calls on one writer, then Close -/
+
+section
+variable {σ : Type} (add : σ → Nat → Bytes → σ × AddRes)
+
+theorem run_cons (r : Run σ) (op : Op σ) (ops : List (Op σ)) :
+    run add true r (op :: ops) = run add true (Run.step add true r op) ops := rfl
+
+def toRun (x : σ × W × GROut) (c : Bytes) (lg : List (Nat × Bytes)) : Run σ :=
+  ⟨x.1, x.2.1, c, lg, x.2.2.evs, x.2.2.panic⟩
+
+/-- one iteration of the loop either does not touch the writer or is one `ReadFrom` -/
+theorem grOne_cases (st : σ) (w : W) (fc : FileChunk) (r : Resp) :
+    ((grOne add true st w fc r).st = st ∧ (grOne add true st w fc r).w = w ∧
+      (grOne add true st w fc r).evs = [] ∧ (grOne add true st w fc r).panic = false) ∨
+    ∃ src, (grOne add true st w fc r).st = (readFrom add true st w src).1 ∧
+      (grOne add true st w fc r).w = (readFrom add true st w src).2.1 ∧
+      (grOne add true st w fc r).evs = (readFrom add true st w src).2.2.evs ∧
+      (grOne add true st w fc r).panic = (readFrom add true st w src).2.2.panic := by
+  cases r with
+  | transport => left; exact ⟨rfl, rfl, rfl, rfl⟩
+  | pad => right; exact ⟨zeroSrc fc.length.toNat, rfl, rfl, rfl, rfl⟩
+  | http status cl cr body =>
+    cases hd : grDecide true status cl cr fc.filelength fc.offset fc.length with
+    | reject why => left; simp [grOne, hd]
+    | accept lim => right; exact ⟨grSrc lim body, by simp [grOne, hd]⟩
+
+/-- whatever the servers answer, the effect of the per-file loop on the store, the writer and the
+    events is that of some sequence of `ReadFrom` calls -/
+theorem grLoop_run : ∀ (fcs : List FileChunk) (rs : List Resp) (st : σ) (w : W) (acc : GROut)
+    (c : Bytes) (lg : List (Nat × Bytes)),
+    ∃ srcs : List Src, ∃ c' lg',
+      run add true ⟨st, w, c, lg, acc.evs, acc.panic⟩ (srcs.map Op.readFrom)
+        = toRun (grLoop add true st w fcs rs acc) c' lg' := by
+  intro fcs
+  induction fcs with
+  | nil => intro rs st w acc c lg; exact ⟨[], c, lg, rfl⟩
+  | cons fc fcs ih =>
+    intro rs st w acc c lg
+    unfold grLoop
+    dsimp only
+    have hne : ∀ r, (noteReq acc fc r).evs = acc.evs ∧ (noteReq acc fc r).panic = acc.panic := by
+      intro r; cases r <;> exact ⟨rfl, rfl⟩
+    rcases grOne_cases add st w fc (rs.headD Resp.transport) with ⟨h1, h2, h3, h4⟩ | ⟨src, h1, h2, h3, h4⟩
+    · -- the writer was not called in this iteration
+      generalize grOne add true st w fc (rs.headD Resp.transport) = x at h1 h2 h3 h4
+      rw [h4]
+      simp only [Bool.false_eq_true, if_false, h3, List.append_nil, Bool.or_false, h1, h2]
+      cases x.err with
+      | some e => exact ⟨[], c, lg, by simp [run, toRun]⟩
+      | none =>
+        dsimp only
+        split
+        · exact ⟨[], c, lg, by simp [run, toRun]⟩
+        · exact ih rs.tail st w ⟨(noteReq acc fc (rs.headD Resp.transport)).reqs,
+            (noteReq acc fc (rs.headD Resp.transport)).log, acc.evs, acc.panic⟩ c lg
+    · -- one ReadFrom
+      generalize grOne add true st w fc (rs.headD Resp.transport) = x at h1 h2 h3 h4
+      have hstep : Run.step add true ⟨st, w, c, lg, acc.evs, acc.panic⟩ (.readFrom src)
+          = ⟨x.st, x.w, c ++ (readFrom add true st w src).2.2.rd, lg ++ (readFrom add true st w src).2.2.log,
+             acc.evs ++ x.evs, acc.panic || x.panic⟩ := by
+        simp only [Run.step, h1, h2, h3, h4]
+      by_cases hp : x.panic = true
+      · rw [if_pos hp]
+        exact ⟨[src], _, _, by rw [List.map_cons, run_cons, hstep]; rfl⟩
+      · rw [if_neg hp]
+        cases x.err with
+        | some e => exact ⟨[src], _, _, by rw [List.map_cons, run_cons, hstep]; rfl⟩
+        | none =>
+          dsimp only
+          split
+          · exact ⟨[src], _, _, by rw [List.map_cons, run_cons, hstep]; rfl⟩
+          · obtain ⟨srcs, c', lg', h⟩ := ih rs.tail x.st x.w
+              ⟨(noteReq acc fc (rs.headD Resp.transport)).reqs,
+                (noteReq acc fc (rs.headD Resp.transport)).log, acc.evs ++ x.evs, acc.panic || x.panic⟩
+              (c ++ (readFrom add true st w src).2.2.rd) (lg ++ (readFrom add true st w src).2.2.log)
+            exact ⟨src :: srcs, c', lg', by rw [List.map_cons, run_cons, hstep]; exact h⟩
+
+/-- `webseedGR` = some `ReadFrom`s on a fresh writer for the range, then `Close` -/
+theorem webseedGR_run (st : σ) (fcs : List FileChunk) (off0 cnt0 : Nat) (rs : List Resp)
+    (hle : CountLe add) (hU : off0 + cnt0 < U32) :
+    ∃ srcs : List Src,
+      let r := run add true (Run.init st off0 cnt0) (srcs.map Op.readFrom ++ [.close])
+      (webseedGR add true st fcs off0 cnt0 rs).2.evs = r.evs ∧
+      (webseedGR add true st fcs off0 cnt0 rs).2.panic = false ∧ r.w.closed = true ∧
+      (webseedGR add true st fcs off0 cnt0 rs).1 = r.st := by
+  obtain ⟨srcs, c', lg', h⟩ := grLoop_run add fcs rs st (newWriter off0 cnt0) {} [] []
+  refine ⟨srcs, ?_⟩
+  have hrun : run add true (Run.init st off0 cnt0) (srcs.map Op.readFrom ++ [.close])
+      = Run.step add true (run add true (Run.init st off0 cnt0) (srcs.map Op.readFrom)) .close := by
+    simp [run, List.foldl_append]
+  have hnp := C14_writer_no_panic add hle off0 cnt0 hU st (srcs.map Op.readFrom)
+  have h' : run add true (Run.init st off0 cnt0) (srcs.map Op.readFrom)
+      = toRun (grLoop add true st (newWriter off0 cnt0) fcs rs {}) c' lg' := h
+  have hpan : (grLoop add true st (newWriter off0 cnt0) fcs rs {}).2.2.panic = false := by
+    have := congrArg Run.panic h'; rw [hnp] at this; exact this.symm
+  dsimp only
+  rw [hrun, h']
+  unfold webseedGR
+  dsimp only
+  rw [hpan]
+  simp only [Bool.false_eq_true, if_false, Run.step, toRun]
+  refine ⟨trivial, trivial, ?_, trivial⟩
+  unfold close
+  split
+  · assumption
+  · split <;> rfl
+
+/-- The store after `webseedGR` is the store after a run of the writer to which
+    `C14_writer_exact`, `C14_writer_whole_blocks` apply: whatever the servers answered, what reached
+    the piece store is a prefix of the bytes the writer accepted, at their offsets, inside the range. -/
+theorem C14_webseedGR_is_writer_run (hle : CountLe add) (off0 cnt0 : Nat) (hU : off0 + cnt0 < U32)
+    (st : σ) (fcs : List FileChunk) (rs : List Resp) :
+    ∃ ops : List (Op σ), (webseedGR add true st fcs off0 cnt0 rs).1
+      = (run add true (Run.init st off0 cnt0) ops).st := by
+  obtain ⟨srcs, _, _, _, h⟩ := webseedGR_run add st fcs off0 cnt0 rs hle hU
+  exact ⟨_, h⟩
+
+/-- **The whole fetch.**  For every file layout (`fcs`), every answer of every server (`rs`: any
+    status, headers, body, failure), every store honouring the contract: `webseedGR` does not
+    fault, and the TorData events plus the final TorDrop it emits name exactly the blocks
+    maybeWebseed reserved for the range — each once, in order. -/
+theorem C14_webseedGR_released (hle : CountLe add) (pl : Nat) (hb : BlocksC add pl)
+    (off0 cnt0 : Nat) (ha : off0 % CS = 0) (hin : off0 + cnt0 ≤ pl) (hpl : pl < U32)
+    (st : σ) (fcs : List FileChunk) (rs : List Resp) :
+    (webseedGR add true st fcs off0 cnt0 rs).2.panic = false ∧
+    released (webseedGR add true st fcs off0 cnt0 rs).2.evs = reserve off0 cnt0 := by
+  obtain ⟨srcs, h1, h2, h3, _⟩ := webseedGR_run add st fcs off0 cnt0 rs hle (by omega)
+  refine ⟨h2, ?_⟩
+  rw [h1]
+  exact (C14_reservation_released add hle pl hb off0 cnt0 ha hin hpl st _).2 h3
+
+end
 
 /-! ### parseContentRange -/
 
